@@ -2,7 +2,8 @@
 
 Every blocking call on the connection (`sendall`, `recv_into`) blocks its greenlet until the
 harness lets it return with an outcome it chooses: 'ok', 'raise' (socket.error) or 'eof'.
-`open()` meets the outcome programmed in `next_connect`.  `release_burst` lets a blocked read return
+`open()` meets the outcome programmed in `next_connect` — or, with `next_connect = 'block'`, blocks in the
+connect like a real non-blocking connect does until the harness calls `release_connect(outcome)`.  `release_burst` lets a blocked read return
 and programs the outcomes of the reads that follow it, which then return *without blocking* — bytes
 (and an end of stream / error behind them) that arrived in one burst and are already buffered, so the
 reading greenlet does not yield between them.  Nothing here imports scales: the
@@ -84,8 +85,18 @@ class StepConn(object):
     def connect(self, addr):
         """what the real ScalesSocket.open() calls on the OS socket it has just created"""
         o = self.owner
-        o.connects += 1
-        if o.next_connect != 'ok':
+        outcome = o.next_connect
+        if outcome == 'block':
+            # the connect is in progress: the calling greenlet yields until the harness decides how it ends
+            ev = Event()
+            o.pend_connect = (self, ev)
+            try:
+                ev.wait()
+            finally:
+                o.pend_connect = None
+            outcome = o.connect_outcome
+        o.connects += 1            # counted when the attempt concludes
+        if outcome != 'ok':
             raise _socket.error(111, 'Connection refused')
         o.conns.append(self)
 
@@ -113,6 +124,16 @@ def real_socket(host='h', port=1):
     s = ss.ScalesSocket(host, port)
     s.next_connect, s.connects, s.conns, s.eof_mid = 'ok', 0, [], False
     s.next_buffered = []          # (outcome, data) of the first reads on the next connection: already there
+    s.pend_connect = None         # (connection, event) of a connect that is in progress (`next_connect = 'block'`)
+    s.connect_outcome = 'ok'
+
+    def release_connect(outcome, buffered=()):
+        """the connect in progress concludes ('ok' / 'refuse'); `buffered`: the first reads are already there"""
+        conn, ev = s.pend_connect
+        s.connect_outcome = outcome
+        conn.buffered = list(buffered)
+        ev.set()
+    s.release_connect = release_connect
     s._resolveAddr = lambda: [(2, 1, 6, '', (host, port))]
 
     def factory(family, type_):
